@@ -169,7 +169,7 @@ Inv_PromoteIdempotent ==
 (* what the probes of props/c05.py observe for an expression of type T: the generic  *)
 (* selection over G1 (all basic arithmetic types) and G2 (one enum per compatible type), *)
 (* compatibility with the twin enums, size, and incompatible types of the same size.     *)
-ObsTypes == {B(k) : k \in BasicKinds} \cup {En(e) : e \in EnumTags}
+ObsTypes == {B(k) : k \in BasicKinds} \cup {En(e) : e \in ProbeEnumTags}
 ObsOf(t) ==
   [name |-> Name(t),
    g1 |-> GenericSel(t, G1Types),
@@ -179,7 +179,7 @@ ObsOf(t) ==
    near |-> SetToSeq({k \in BasicKinds : ~Compatible(t, B(k)) /\ KindSize(k) = SizeOf(t)})]
 ASSUME Emit => PrintT("VCASE " \o ToJson(
   [form |-> "table", g1 |-> G1, g2 |-> G2, twins |-> Twins,
-   enumbase |-> [e \in EnumTags |-> EnumBase(e)],
+   enumbase |-> [e \in ProbeEnumTags |-> EnumBase(e)],
    groups |-> [i \in 1..Len(M_BinGroups) |-> [g |-> M_BinGroups[i], ops |-> M_GroupOps(M_BinGroups[i])]],
    obs |-> SetToSeq({ObsOf(t) : t \in ObsTypes})]))
 
